@@ -112,6 +112,12 @@ class bspline(object):
                 bkpt = np.sort(x)[xspot].astype('f')
             else:
                 raise ValueError('No information for bkpts.')
+        if bkpt.dtype.kind != 'f':
+            #
+            # Breakpoints given as integers (e.g. np.arange(0, 101, 10))
+            # cannot hold x.min(), x.max() or the padding added below.
+            #
+            bkpt = bkpt.astype('d')
         imin = bkpt.argmin()
         imax = bkpt.argmax()
         if x.min() < bkpt[imin]:
